@@ -91,11 +91,16 @@ theorem unit_spec (s : Bytes) :
     u.consumed ≤ s.length ∧ (s ≠ [] → 1 ≤ u.consumed) :=
   Lemmas.Lexer.unit_spec s
 
--- non-vacuity
-example : Agrees .decimal "x-1.5 e+3V".toUTF8.toList 1 (lexDecimal "x-1.5 e+3V".toUTF8.toList 1) ∧
-    (lexDecimal "x-1.5 e+3V".toUTF8.toList 1).2.2 = 8 := by decide
-example : (specToken .string "\"a\"\"b\"c".toUTF8.toList).map (·.consumed) = some 6 := by decide
-example : specToken .string "\"\"\"".toUTF8.toList = none := by decide
-example : (detectUnit "A:b 1,2;".toUTF8.toList).nParams = 2 := by decide
+-- non-vacuity (byte lists written out: `decide` cannot reduce `String.toUTF8`)
+-- "x-1.5 e+3V"
+example : Agrees .decimal [120, 45, 49, 46, 53, 32, 101, 43, 51, 86] 1
+      (lexDecimal [120, 45, 49, 46, 53, 32, 101, 43, 51, 86] 1) ∧
+    (lexDecimal [120, 45, 49, 46, 53, 32, 101, 43, 51, 86] 1).2.2 = 8 := by decide
+-- "\"a\"\"b\"c"
+example : (specToken .string [34, 97, 34, 34, 98, 34, 99]).map (·.consumed) = some 6 := by decide
+-- "\"\"\""
+example : specToken .string [34, 34, 34] = none := by decide
+-- "A:b 1,2;"
+example : (detectUnit [65, 58, 98, 32, 49, 44, 50, 59]).nParams = 2 := by decide
 
 end ScpiVerif.Props.C13
